@@ -17,6 +17,16 @@ def front(cs):
     return (y + dy, x + dx)
 
 
+def pose_fixed_until(names, fn, cs):
+    """under ACTUATE the pose cannot change before function `fn` of the chain runs: move / turn / pickndrop / obstacles / actuate_* never move the
+    agent under ACTUATE; teleport (6) might, if the agent stands on a telepod"""
+    g, p, o, held = cs
+    if fn not in names:
+        return False
+    before = names[:names.index(fn)]
+    return 6 not in before or g[p[0]][p[1]][0] != gen.TY['Telepod']
+
+
 def oracle(ctx, names, cs, act, kind, val, log, tape):
     case = tsuite.case_dict(names, cs, act)
     if kind != 'ok':
@@ -38,11 +48,11 @@ def oracle(ctx, names, cs, act, kind, val, log, tape):
                     # status changed: only by actuate_door, under ACTUATE, only to OPEN, locked only with the matching key
                     has_key = held[0] == KEY_T and held[2] == c[2]
                     legit = (4 in names and act == 6 and c2[1] == OPEN and c[1] != OPEN and (c[1] == CLOSED or has_key))
-                    if single is not None:
+                    if single is not None or pose_fixed_until(names, 4, cs):
                         legit = legit and (y, x) == f
                     if not legit:
-                        ctx.violation(f'door at {(y, x)} changed status {c[1]} -> {c2[1]} illegitimately', case)
-                elif single == 4 and act == 6 and (y, x) == f:
+                        ctx.violation(f'door at {(y, x)} changed status {c[1]} -> {c2[1]} illegitimately (faced cell: {f})', case)
+                elif (single == 4 or (single is None and pose_fixed_until(names, 4, cs))) and act == 6 and (y, x) == f:
                     has_key = held[0] == KEY_T and held[2] == c[2]
                     should_open = c[1] == CLOSED or (c[1] == LOCKED and has_key)
                     if should_open:
@@ -51,11 +61,11 @@ def oracle(ctx, names, cs, act, kind, val, log, tape):
                 legit = 5 in names and act == 6 and (c2 == c[3] or (
                     # in a composition, an obstacle may move onto the floor the opened box left behind, within the same step
                     3 in names and c[3] == gen.FLOOR and c2[0] == gen.TY['MovingObstacle']))
-                if single is not None:
+                if single is not None or pose_fixed_until(names, 5, cs):
                     legit = legit and (y, x) == f
                 if not legit:
-                    ctx.violation(f'box at {(y, x)} changed without being actuated while faced', case)
-            if single == 5 and act == 6 and (y, x) == f and c[0] == BOX_T and c2 != c[3]:
+                    ctx.violation(f'box at {(y, x)} changed without being actuated while faced (faced cell: {f})', case)
+            if (single == 5 or (single is None and pose_fixed_until(names, 5, cs) and 3 not in names)) and act == 6 and (y, x) == f and c[0] == BOX_T and c2 != c[3]:
                 ctx.violation('faced box was not replaced by its content', case)
     if (single in (4, 5) or act != 7) and held2 != held:
         ctx.violation('held item changed (keys must not be consumed)', case)
